@@ -470,6 +470,38 @@ func init() {
 		return nil
 	})
 
+	reg("(*sync/atomic.Value).Swap", func(e *Engine, a []value) value {
+		e.yield()
+		p := cell(a[0])
+		if a[1].(Iface).t == nil {
+			panic(targetPanic{v: "sync/atomic: swap of nil value into Value"})
+		}
+		var old value = Iface{}
+		if c, ok := e.atomvals[p]; ok {
+			old = *c
+		}
+		v := a[1]
+		e.atomvals[p] = &v
+		return old
+	})
+	reg("(*sync/atomic.Value).CompareAndSwap", func(e *Engine, a []value) value {
+		e.yield()
+		p := cell(a[0])
+		if a[2].(Iface).t == nil {
+			panic(targetPanic{v: "sync/atomic: compare and swap of nil value into Value"})
+		}
+		var cur value = Iface{}
+		if c, ok := e.atomvals[p]; ok {
+			cur = *c
+		}
+		if !e.branch(e.ifaceEq(cur.(Iface), a[1].(Iface))) {
+			return false
+		}
+		v := a[2]
+		e.atomvals[p] = &v
+		return true
+	})
+
 	// ---- context ----
 	reg("context.Background", func(e *Engine, a []value) value { return e.ctxIface(&ctxObj{done: &Chan{elem: types.NewStruct(nil, nil)}}) })
 	reg("context.TODO", func(e *Engine, a []value) value { return e.ctxIface(&ctxObj{done: &Chan{elem: types.NewStruct(nil, nil)}}) })
